@@ -884,6 +884,11 @@ package hashgraph
 //@   modifies c.rounds, c.peerSets[*], c.repertoireByPubKey[*], c.repertoireByID[*], c.firstRounds[*]
 //@   ensures[no-rewrite] old(__in(round, c.peerSets)) ==> ret0 != nil && __eq(c.rounds, old(c.rounds)) && (forall r int :: __in(r, c.peerSets) == old(__in(r, c.peerSets)) && c.peerSets[r] == old(c.peerSets[r]))
 //@   ensures[insert]     !old(__in(round, c.peerSets)) ==> ret0 == nil && (forall r int :: __in(r, c.peerSets) == (old(__in(r, c.peerSets)) || r == round) && c.peerSets[r] == __ite(r == round, peerSet, old(c.peerSets[r])))
+//@   ensures[wf-kept]    old(__in(round, c.peerSets)) ==> c.wf()
+// a lookup below the inserted round still lands on the same recorded round (the heart of "a change never applies to an
+// earlier round"): the recorded round that was the greatest one not above r is still listed, and its successor in the
+// new table is still above r (not exported to callers: it slows their proofs down and they do not need it)
+//@   establishes[floor-stable] !old(__in(round, c.peerSets)) ==> (forall r int, k int :: r < round && 0 <= k && k < old(len(c.rounds)) && old(c.rounds)[k] <= r && (k == old(len(c.rounds))-1 || r < old(c.rounds)[k+1]) ==> (exists j int :: 0 <= j && j < len(c.rounds) && c.rounds[j] == old(c.rounds)[k] && (j == len(c.rounds)-1 || r < c.rounds[j+1])))
 //@   ensures[wf-len]     !old(__in(round, c.peerSets)) ==> len(c.rounds) == old(len(c.rounds)) + 1
 //@   ensures[wf-asc]     !old(__in(round, c.peerSets)) ==> (forall i int, j int :: 0 <= i && i < j && j < len(c.rounds) ==> c.rounds[i] < c.rounds[j])
 //@   ensures[wf-in]      !old(__in(round, c.peerSets)) ==> (forall i int :: 0 <= i && i < len(c.rounds) ==> __in(c.rounds[i], c.peerSets) && c.peerSets[c.rounds[i]] != nil)
@@ -1294,6 +1299,12 @@ package hashgraph
 //@   modifies s.participantEventsCache.participants, any common.RollingIndexMap.keys, anymap map[uint32]*common.RollingIndex, s.roots[*]
 //@   ensures[wf] s.participantEventsCache.wf() && len(s.participantEventsCache.participants.Peers) <= old(len(s.participantEventsCache.participants.Peers)) + 1
 
+// (Third attempt, 2026-09-25: with the view stated as "for every r at or above the first recorded round SOME index k
+// is the greatest recorded round not above r and the view at r is its set" - existence of k needs induction, so it has to be
+// part of the invariant - the clauses at, floor, refuse and earlier of Store.SetPeerSet do discharge for this method; earlier
+// needs 15 s of z3 5.1 on its own, too close to the quick budget, and the remaining coupling clauses need a separation
+// invariant between the repertoire maps and every recorded set's maps threaded through all callers. Not adopted; what was
+// kept is PeerSetCache.Set/floor-stable above, which states the same fact at the cache level and takes 0.2 s.)
 // InmemStore.SetPeerSet is NOT verified against Store.SetPeerSet: re-establishing the lookup view after an insertion
 // into the sorted round table (and the separation of the repertoire maps from the stored sets' maps) did not
 // discharge within the solver budget. What the attempt did establish: Store.SetPeerSet's "earlier rounds unchanged"
